@@ -22,8 +22,6 @@ CLAIMS = {
         "preconditions; the 2L formulas and the agreement of computing/given overloads are proved by WP + z3 (reals).",
    note=NOTE_COMMON + "Model getters and a_mu callees are ghost constants (value of a pure callee on the unchanged const model); finiteness of the a_mu inputs is a precondition.",
    technique="CBMC code contracts (IEEE) + WP/SMT lemmas", design='5 C18'),
-}
-
  'C20': dict(
    text="CKM unitarity is proved as 9 complex polynomial identities for ALL angles and phases from sin^2+cos^2=1 (contract of the real "
         "get_ckm_from_angles); get_ckm_from_wolfenstein throws only EInvalidInput, rejects every out-of-range parameter, and every asin/sqrt it "
